@@ -248,9 +248,18 @@ impl<'a, 'bases, R: Reader> EhHdrTableIter<'a, 'bases, R> {
         };
 
         self.remain -= 1;
-        let from = parse_encoded_pointer(self.hdr.table_enc, &parameters, &mut self.table)?;
-        let to = parse_encoded_pointer(self.hdr.table_enc, &parameters, &mut self.table)?;
-        Ok(Some((from, to)))
+        let mut parse = || {
+            let from = parse_encoded_pointer(self.hdr.table_enc, &parameters, &mut self.table)?;
+            let to = parse_encoded_pointer(self.hdr.table_enc, &parameters, &mut self.table)?;
+            Ok(Some((from, to)))
+        };
+        let result = parse();
+        if result.is_err() {
+            // Don't yield any further entries after an error. This also ensures that
+            // iteration terminates if the header's FDE count exceeds the table size.
+            self.remain = 0;
+        }
+        result
     }
     /// Yield the nth entry in the `EhHdrTableIter`
     pub fn nth(&mut self, n: usize) -> Result<Option<(Pointer, Pointer)>> {
